@@ -7,6 +7,8 @@
 #include <unordered_set>
 #include <fstream>
 #include <sstream>
+#include <execinfo.h>
+#include <exception>
 
 std::vector<std::string> g_avoid;
 
@@ -95,30 +97,42 @@ static Json shrink(Json plan, const std::string &oracle, int budget)
         bool progress = true;
         while (progress && g_shrink_execs < budget) {
                 progress = false;
-                // (1) ddmin over op arrays
-                std::vector<Json *> arrs;
-                collect_arrays(plan, "", arrs);
-                for (size_t ai = 0; ai < arrs.size(); ai++) {
-                        // re-collect each time (pointers stay valid as we only edit the leaf array)
-                        Json *arr = arrs[ai];
-                        size_t chunk = arr->a.size() / 2;
+                // (1) ddmin over op arrays.  Arrays can nest ("tasks" contain "ops"): pointers are re-collected after every
+                // successful removal, because erasing elements of an outer array invalidates pointers into it.
+                for (size_t ai = 0;; ai++) {
+                        std::vector<Json *> arrs;
+                        collect_arrays(plan, "", arrs);
+                        if (ai >= arrs.size())
+                                break;
+                        size_t chunk = arrs[ai]->a.size() / 2;
                         while (chunk >= 1 && g_shrink_execs < budget) {
                                 bool removed = false;
-                                for (size_t start = 0; start + chunk <= arr->a.size() && g_shrink_execs < budget;) {
-                                        std::vector<Json> saved = arr->a;
+                                for (size_t start = 0; g_shrink_execs < budget;) {
+                                        arrs.clear();
+                                        collect_arrays(plan, "", arrs);
+                                        if (ai >= arrs.size())
+                                                break;
+                                        Json *arr = arrs[ai];
+                                        if (start + chunk > arr->a.size())
+                                                break;
+                                        Json saved = plan;
                                         arr->a.erase(arr->a.begin() + start, arr->a.begin() + start + chunk);
                                         if (still_fails(plan, oracle)) {
                                                 removed = true;
                                                 progress = true;
                                         } else {
-                                                arr->a = saved;
+                                                plan = saved;
                                                 start += chunk;
                                         }
                                 }
-                                if (!removed || chunk > arr->a.size())
+                                arrs.clear();
+                                collect_arrays(plan, "", arrs);
+                                if (ai >= arrs.size())
+                                        break;
+                                if (!removed || chunk > arrs[ai]->a.size())
                                         chunk /= 2;
-                                if (chunk > arr->a.size())
-                                        chunk = arr->a.size();
+                                if (chunk > arrs[ai]->a.size())
+                                        chunk = arrs[ai]->a.size();
                         }
                 }
                 // (2) integer leaves toward 0 / 1 / half
@@ -283,6 +297,8 @@ static int cmd_run(int argc, char **argv)
                 if ((k & 7) == 0 && now_s() - t0 > secs)
                         break;
                 uint64_t index = k * nworkers + worker;
+                if (getenv("SIM_PROGRESS"))
+                        fprintf(stderr, "index %llu\n", (unsigned long long) index);
                 Json plan = gen_plan(seed, index, pw, prop, tier);
                 if (getenv("SIM_RO_AFTER") && k == (uint64_t) atoll(getenv("SIM_RO_AFTER"))) {
                         uintptr_t lo = g_lib.rw_lo & ~4095ul, hi = (g_lib.rw_hi + 4095) & ~4095ul;
@@ -427,11 +443,18 @@ static int cmd_merge(int argc, char **argv)
 }
 
 bool cpu_seam_init(); // cpu.cc
+void cpu_lib_monitor(bool on);
 int cmd_selfcheck(uint64_t n, uint64_t seed);
 
 int main(int argc, char **argv)
 {
         setvbuf(stdout, 0, _IOLBF, 0);
+        std::set_terminate([]() {
+                void *bt[40];
+                int n = backtrace(bt, 40);
+                backtrace_symbols_fd(bt, n, 2);
+                _exit(70);
+        });
         if (argc < 2) {
                 fprintf(stderr, "usage: isal-sim selftest | run ... | replay <file> [--trace] | gen ... | merge-sigs files...\n");
                 return 2;
@@ -460,10 +483,15 @@ int main(int argc, char **argv)
         }
         if (cmd == "selfcheck")
                 return cmd_selfcheck(argc > 2 ? strtoull(argv[2], 0, 0) : 2000, argc > 3 ? strtoull(argv[3], 0, 0) : 1);
-        if (cmd == "run")
-                return cmd_run(argc, argv);
-        if (cmd == "replay")
-                return cmd_replay(argc > 2 ? argv[2] : "", argc > 3 && !strcmp(argv[3], "--trace"));
+        if (cmd == "run" || cmd == "replay") {
+                // C15 monitor, active in every run of every profile: the library's own writable data is write-protected; the
+                // only store let through (emulated) is a resolver publishing its dispatch slot
+                if (!getenv("SIM_NO_LIBDATA_MONITOR"))
+                        cpu_lib_monitor(true);
+                int rc = cmd == "run" ? cmd_run(argc, argv) : cmd_replay(argc > 2 ? argv[2] : "", argc > 3 && !strcmp(argv[3], "--trace"));
+                cpu_lib_monitor(false); // the C runtime writes completed.0 in the library's .bss at exit
+                return rc;
+        }
         if (cmd == "gen") {
                 std::string prop = argc > 2 ? argv[2] : "C07", prof = argc > 3 ? argv[3] : "deflate";
                 uint64_t seed = argc > 4 ? strtoull(argv[4], 0, 0) : 1, idx = argc > 5 ? strtoull(argv[5], 0, 0) : 0;
